@@ -102,7 +102,7 @@ def replay(ctx, behaviours, params, trace_cfg, chunk=200):
 # code -> spec: random driver
 
 RVS = ["none", "none", "none", "true", "false", "cont", "halt", "remove",
-       "haltremove", "empty", "throw"]
+       "haltremove", "empty", "throw", "throwb"]
 MODES = ["handler", "handlerT", "eid", "eidT", "pair"]
 
 
